@@ -580,13 +580,27 @@ var reasonCoq = map[string]string{"none": "RNo", "first notification": "RFirst",
 var outcomeCoq = map[sim.Outcome]string{sim.OK: "OK", sim.Recoverable: "Recoverable", sim.Unrecoverable: "Unrecoverable"}
 
 type evt struct {
-	t    int64
-	ev   string
-	outs []string
+	t      int64
+	ev     string
+	outs   []string
+	pub    *sim.Rec // the publish record behind an EInsert (and, with allPub, behind a non-member placeholder)
+	member bool
 }
 
 // Case renders the event list of one group as a Coq term of type GroupRun.case, plus per-case statistics.
 func (res *Result) Case(gkey string) (string, map[string]int) {
+	evs, stats, cfg := res.groupEvents(gkey, false)
+	parts := make([]string, len(evs))
+	for i, e := range evs {
+		parts[i] = fmt.Sprintf("(%s, %s, %s)", vh.Z(e.t), e.ev, vh.List(e.outs))
+	}
+	return fmt.Sprintf("mkCase %s %s [\n  %s]", cfg, vh.Z(res.T0), strings.Join(parts, ";\n  ")), stats
+}
+
+// groupEvents is the event list of one group with the observed outputs, in order, plus the group's configuration term.
+// allPub: publications of label sets that are NOT routed to the group (and provider GCs) are listed too, as
+// placeholders (ev "" / "IGc") for the product models that run the provider.
+func (res *Result) groupEvents(gkey string, allPub bool) ([]evt, map[string]int, string) {
 	g := res.Groups[gkey]
 	stats := map[string]int{}
 	var evs []evt
@@ -613,13 +627,22 @@ func (res *Result) Case(gkey string) (string, map[string]int) {
 					member = true
 				}
 			}
+			rc := r
 			if !member {
+				if allPub {
+					evs = append(evs, evt{t: r.T, pub: &rc})
+				}
 				continue
 			}
-			evs = append(evs, evt{t: r.T, ev: vh.App("EInsert", vh.App("mkA", vh.Z(int64(id)), vh.Z(a.Starts), vh.Z(a.Ends), vh.Z(a.Updated)))})
+			evs = append(evs, evt{t: r.T, ev: vh.App("EInsert", vh.App("mkA", vh.Z(int64(id)), vh.Z(a.Starts), vh.Z(a.Ends), vh.Z(a.Updated))), pub: &rc, member: true})
 			stats["insert"]++
 			if inFlight {
 				stats["insert-during-flush"]++
+			}
+		case "provgc":
+			if allPub {
+				evs = append(evs, evt{t: r.T, ev: "IGc"})
+				stats["provider-gc"]++
 			}
 		case "flush":
 			if r.GKey != gkey {
@@ -707,11 +730,44 @@ func (res *Result) Case(gkey string) (string, map[string]int) {
 		ints = append(ints, vh.App("mkI", vh.Bool(ij.SendResolved)))
 	}
 	cfg := vh.App("mkG", vh.Z(g.GW), vh.Z(g.GI), vh.Z(g.RI), vh.Z(g.Timeout+res.Wait), vh.Z(res.Sc.Retention), vh.List(ints))
-	parts := make([]string, len(evs))
-	for i, e := range evs {
-		parts[i] = fmt.Sprintf("(%s, %s, %s)", vh.Z(e.t), e.ev, vh.List(e.outs))
+	return evs, stats, cfg
+}
+
+// IngestCase renders one group's run as a case of the product PROVIDER x GROUP (Model/Ingest.v, Run/IngestRun.v): every
+// alert as SUBMITTED to the provider (any label set; flag: routed to this group) is an event, the model's provider
+// computes what is stored and handed on; provider GCs that deleted something are events; everything else is the
+// group's event. ok=false when a provider GC and a submission fall on the same virtual instant (order not observable)
+// or a submission was not recorded.
+func (res *Result) IngestCase(gkey string) (string, map[string]int, bool) {
+	evs, stats, cfg := res.groupEvents(gkey, true)
+	gcAt := map[int64]bool{}
+	for _, e := range evs {
+		if e.ev == "IGc" {
+			gcAt[e.t] = true
+		}
 	}
-	return fmt.Sprintf("mkCase %s %s [\n  %s]", cfg, vh.Z(res.T0), strings.Join(parts, ";\n  ")), stats
+	parts := make([]string, 0, len(evs))
+	for _, e := range evs {
+		switch {
+		case e.pub != nil:
+			if e.pub.Raw == nil || gcAt[e.t] {
+				return "", stats, false
+			}
+			raw := e.pub.Raw
+			id := res.idOf(raw.Labels)
+			al := vh.App("mkAlert", res.lblTerm(id), "[]", vh.Z(raw.Starts), vh.Z(raw.Ends), vh.Str(""), vh.Z(raw.Updated), "false")
+			parts = append(parts, fmt.Sprintf("(%s, %s, %s)", vh.Z(e.t), vh.App("IPut", vh.Bool(e.member), vh.Z(int64(id)), al), "[]"))
+			stats["submission"]++
+			if e.pub.Alerts[0].Starts != raw.Starts || e.pub.Alerts[0].Ends != raw.Ends {
+				stats["submission-merged-with-stored"]++
+			}
+		case e.ev == "IGc":
+			parts = append(parts, fmt.Sprintf("(%s, IGc, [])", vh.Z(e.t)))
+		default:
+			parts = append(parts, fmt.Sprintf("(%s, IGrp (%s), %s)", vh.Z(e.t), e.ev, vh.List(e.outs)))
+		}
+	}
+	return fmt.Sprintf("mkCase %s %s [\n  %s]", cfg, vh.Z(res.T0), strings.Join(parts, ";\n  ")), stats, true
 }
 
 // Fix recomputes derived fields after JSON decoding (replay).
